@@ -25,7 +25,7 @@ use std::ops::Deref;
 use std::time::Duration;
 
 thread_local! {
-    static OS_IPC_CHANNELS_FOR_DESERIALIZATION: RefCell<Vec<OsOpaqueIpcChannel>> =
+    static OS_IPC_CHANNELS_FOR_DESERIALIZATION: RefCell<Vec<Option<OsOpaqueIpcChannel>>> =
         RefCell::new(Vec::new())
 }
 thread_local! {
@@ -517,14 +517,7 @@ impl IpcReceiverSet {
                     os_ipc_shared_memory_regions,
                 ) => IpcSelectionResult::MessageReceived(
                     os_receiver_id,
-                    OpaqueIpcMessage {
-                        data,
-                        os_ipc_channels,
-                        os_ipc_shared_memory_regions: os_ipc_shared_memory_regions
-                            .into_iter()
-                            .map(Some)
-                            .collect(),
-                    },
+                    OpaqueIpcMessage::new(data, os_ipc_channels, os_ipc_shared_memory_regions),
                 ),
                 OsIpcSelectionResult::ChannelClosed(os_receiver_id) => {
                     IpcSelectionResult::ChannelClosed(os_receiver_id)
@@ -583,15 +576,18 @@ impl<'de> Deserialize<'de> for IpcSharedMemory {
         if index == usize::MAX {
             Ok(IpcSharedMemory::empty())
         } else {
-            let os_shared_memory = OS_IPC_SHARED_MEMORY_REGIONS_FOR_DESERIALIZATION.with(
-                |os_ipc_shared_memory_regions_for_deserialization| {
-                    // FIXME(pcwalton): This could panic if the data was corrupt and the index was out
-                    // of bounds. We should return an `Err` result instead.
-                    os_ipc_shared_memory_regions_for_deserialization.borrow_mut()[index]
-                        .take()
-                        .unwrap()
-                },
-            );
+            let os_shared_memory = OS_IPC_SHARED_MEMORY_REGIONS_FOR_DESERIALIZATION
+                .with(|os_ipc_shared_memory_regions_for_deserialization| {
+                    // The index comes from the wire: it may be out of bounds,
+                    // or name a region that was already handed out.
+                    os_ipc_shared_memory_regions_for_deserialization
+                        .borrow_mut()
+                        .get_mut(index)
+                        .and_then(Option::take)
+                })
+                .ok_or_else(|| {
+                    serde::de::Error::custom("invalid or reused shared memory region index")
+                })?;
             Ok(IpcSharedMemory {
                 os_shared_memory: Some(os_shared_memory),
             })
@@ -698,7 +694,7 @@ impl IpcSelectionResult {
 /// [to]: #method.to
 pub struct OpaqueIpcMessage {
     data: Vec<u8>,
-    os_ipc_channels: Vec<OsOpaqueIpcChannel>,
+    os_ipc_channels: Vec<Option<OsOpaqueIpcChannel>>,
     os_ipc_shared_memory_regions: Vec<Option<OsIpcSharedMemory>>,
 }
 
@@ -719,7 +715,7 @@ impl OpaqueIpcMessage {
     ) -> OpaqueIpcMessage {
         OpaqueIpcMessage {
             data,
-            os_ipc_channels,
+            os_ipc_channels: os_ipc_channels.into_iter().map(Some).collect(),
             os_ipc_shared_memory_regions: os_ipc_shared_memory_regions
                 .into_iter()
                 .map(Some)
@@ -888,12 +884,7 @@ where
 
     pub fn accept(self) -> Result<(IpcReceiver<T>, T), bincode::Error> {
         let (os_receiver, data, os_channels, os_shared_memory_regions) = self.os_server.accept()?;
-        let value = OpaqueIpcMessage {
-            data,
-            os_ipc_channels: os_channels,
-            os_ipc_shared_memory_regions: os_shared_memory_regions.into_iter().map(Some).collect(),
-        }
-        .to()?;
+        let value = OpaqueIpcMessage::new(data, os_channels, os_shared_memory_regions).to()?;
         Ok((
             IpcReceiver {
                 os_receiver,
@@ -1008,11 +999,25 @@ where
     D: Deserializer<'de>,
 {
     let index: usize = Deserialize::deserialize(deserializer)?;
-    OS_IPC_CHANNELS_FOR_DESERIALIZATION.with(|os_ipc_channels_for_deserialization| {
-        // FIXME(pcwalton): This could panic if the data was corrupt and the index was out of
-        // bounds. We should return an `Err` result instead.
-        Ok(os_ipc_channels_for_deserialization.borrow_mut()[index].to_sender())
-    })
+    take_os_ipc_channel_for_deserialization(index).map(|mut channel| channel.to_sender())
+}
+
+/// Hand out the received channel with the given index, at most once.
+///
+/// The index comes from the wire: it may be out of bounds,
+/// or name a channel that was already handed out.
+fn take_os_ipc_channel_for_deserialization<E>(index: usize) -> Result<OsOpaqueIpcChannel, E>
+where
+    E: serde::de::Error,
+{
+    OS_IPC_CHANNELS_FOR_DESERIALIZATION
+        .with(|os_ipc_channels_for_deserialization| {
+            os_ipc_channels_for_deserialization
+                .borrow_mut()
+                .get_mut(index)
+                .and_then(Option::take)
+        })
+        .ok_or_else(|| E::custom("invalid or reused channel index"))
 }
 
 fn serialize_os_ipc_receiver<S>(
@@ -1037,9 +1042,6 @@ where
 {
     let index: usize = Deserialize::deserialize(deserializer)?;
 
-    OS_IPC_CHANNELS_FOR_DESERIALIZATION.with(|os_ipc_channels_for_deserialization| {
-        // FIXME(pcwalton): This could panic if the data was corrupt and the index was out
-        // of bounds. We should return an `Err` result instead.
-        Ok(os_ipc_channels_for_deserialization.borrow_mut()[index].to_receiver())
-    })
+    #[allow(unused_mut)] // `to_receiver` takes `&self` on some platforms
+    take_os_ipc_channel_for_deserialization(index).map(|mut channel| channel.to_receiver())
 }
